@@ -564,7 +564,7 @@ pub fn gen_streams(out: &mut Out, thorough: bool, opts: &[&str], focus: &str) {
         }
     }
     // (h) grammar-directed documents, plus random damage
-    let n_docs = if thorough { 20000 } else { 3000 };
+    let n_docs = if thorough { 60000 } else { 9000 };
     for i in 0..n_docs {
         let doc = { let mut g = DocGen { rng: &mut out.rng, max_depth: 5 }; g.doc() };
         let o = opts[i % opts.len()];
